@@ -40,6 +40,11 @@ CHECKS = {
    text="TLC shows on the specification that every byte shape it decodes re-encodes identically (8 MTypes x MACPayload length 0..40 x FOptsLen nibble x FPort byte x rejoin type); every shape plus seeded uniform strings and structure-aware mutations of valid frames go through UnmarshalBinary -> MarshalBinary -> UnmarshalBinary on the real code and TLC validates: accepted and MHDR-RFU-zero => re-encoding succeeds and is byte-identical, and decodes again to an equal frame.",
    note="Trusted: TLC, Frame.tla, projection. Coverage-guided fuzzing is not used (DESIGN sec. 4).",
    ref="3/C08"),
+ "C09": dict(
+   technique="decoders specified as total functions in TLA+; TLC enumerates guard-boundary shapes from the specification's size tables (replayed on ~44 real entry points); recorded outcomes of random/textual/mutated inputs validated by TLC (value or error, input untouched)",
+   text="TLC enumerates the shape model of the decoders' guards from the specification's own tables (every application-layer CID x direction x length 0..size+1 with every status-dependent size, every MAC-command CID x direction x 0..6 bytes, CFList/join payload lengths around their fixed sizes, frame shapes around FOptsLen/FPort/MType guards) and checks the specification's decoders are total on them; every shape, plus seeded uniform strings of 0..512 bytes, textual/JSON samples and structure-aware mutations of valid frames, is fed to ~44 real entry points (frame decode binary/base64, decode and decrypt-then-decode with random keys, join-accept decrypt, CFList, MAC commands, four application-layer stream decoders, identifier/backend text and JSON types, key-envelope unwrap) under observe(): outcome must be value or error, the input buffer unchanged, no call exceeding the deadline.",
+   note="Trusted: TLC, harness observe(). Totality only; linear time is a per-call deadline; no coverage-guided fuzzing.",
+   ref="3/C09"),
  "C11": dict(
    technique="NetID/DevAddr addressing rules on bit sequences in TLA+ (NetID.tla); algebraic identities model-checked by TLC; recorded SetAddrPrefix/IsNetID/NwkID/NetIDType/ID results and identifier representations validated by TLC (all 2^24 NetIDs in the thorough tier)",
    text="TLC checks the identities IsNetID(SetPrefix(a,n),n), IsNetID(a,n) <=> SetPrefix(a,n)=a, NwkAddr untouched, type and NwkID preserved, idempotence on the specification for all 8 types x an ID lattice x 4 address patterns; the real SetAddrPrefix, IsNetID (on the input, the result and a one-bit neighbour), NwkID, NetIDType, NetID.Type/ID are recorded for structured+random NetIDs (quick) or all 2^24 NetIDs (thorough) and compared bit for bit with the specification; text/binary/sql representations of EUI64, DevAddr, NetID, AES128Key are checked incl. 0x prefix, upper case and nine kinds of malformed/wrong-length input.",
